@@ -483,6 +483,28 @@ fn codec_probe(tz: &Tz, dt: &DateTime, secs: i64, corr: bool, do_json: bool, dem
     match Value::from(*dt).to_zinc_string() {
         Err(e) => out.fail("zinc_rt", format!("to_zinc_string failed for {rfc} {tzid}: {e}")),
         Ok(text) => {
+            // the same value into a writer that takes a few bytes per call (a socket, a pipe): the same text
+            {
+                use libhaystack::encoding::zinc::encode::ToZinc;
+                struct Trickle(Vec<u8>, usize);
+                impl std::io::Write for Trickle {
+                    fn write(&mut self, buf: &[u8]) -> std::io::Result<usize> {
+                        let n = buf.len().min(self.1);
+                        self.0.extend_from_slice(&buf[..n]);
+                        Ok(n)
+                    }
+                    fn flush(&mut self) -> std::io::Result<()> {
+                        Ok(())
+                    }
+                }
+                let k = 1 + (secs.unsigned_abs() as usize % 7) * 3;
+                let mut w = Trickle(Vec::new(), k);
+                match Value::from(*dt).to_zinc(&mut w) {
+                    Ok(()) if w.0 == text.as_bytes() => {}
+                    Ok(()) => out.fail("zinc_rt", format!("into a writer that takes {k} bytes per call the timestamp is written as {:?}, into a Vec as {text:?}", String::from_utf8_lossy(&w.0))),
+                    Err(e) => out.fail("zinc_rt", format!("to_zinc into a writer that takes {k} bytes per call fails: {e}")),
+                }
+            }
             let back = zinc_from_str(&text);
             if corr {
                 out.req(format!("C06 zenc {} {}", h(tz.name()), h(&rfc)), format!("ok {}", h(&text)));
@@ -549,6 +571,28 @@ fn codec_probe(tz: &Tz, dt: &DateTime, secs: i64, corr: bool, do_json: bool, dem
                     }
                 }
                 if demand_json {
+                    // the same document with its members in the other orders a JSON object may arrive in: through the
+                    // serde_json tree (keys sorted: `_kind`, `tz`, `val`) and as text with `tz` first / `_kind` last
+                    let mut others: Vec<(&str, Result<Value, String>)> = Vec::new();
+                    if let Ok(tree) = serde_json::to_value(&Value::from(*dt)) {
+                        others.push(("from_value(to_value)", serde_json::from_value::<Value>(tree.clone()).map_err(|e| e.to_string())));
+                        if let Some(obj) = tree.as_object() {
+                            let member = |k: &str| obj.get(k).map(|v| format!("{}:{}", serde_json::to_string(k).unwrap_or_default(), v));
+                            for order in [["_kind", "tz", "val"], ["tz", "val", "_kind"], ["val", "_kind", "tz"]] {
+                                let ms: Vec<String> = order.iter().filter_map(|k| member(k)).collect();
+                                let text = format!("{{{}}}", ms.join(","));
+                                others.push(("reordered text", serde_json::from_str::<Value>(&text).map_err(|e| e.to_string())));
+                            }
+                        }
+                    }
+                    for (how, r) in others {
+                        match r {
+                            Ok(Value::DateTime(b)) if tuple(&b) == want => {}
+                            Ok(Value::DateTime(b)) => out.fail("json_rt", format!("{json} (zone {tzid}) through {how} read back as {:?}, written from {:?}", tuple(&b), want)),
+                            Ok(v) => out.fail("json_rt", format!("{json} through {how} read back as {v:?}")),
+                            Err(e) => out.fail("json_rt", format!("{json} (zone {tzid}) through {how} is rejected: {e}")),
+                        }
+                    }
                     match &back {
                         Ok(Value::DateTime(b)) if tuple(b) == want => {}
                         Ok(Value::DateTime(b)) => out.fail(
